@@ -194,6 +194,11 @@ def gen(rng, tier):
     return cases
 
 
+def PROD_CASE(case):
+    """production-build pass: everything but the scheduler scenarios (those live in extra()) runs free"""
+    return True
+
+
 def nontrivial(case):
     return any(l.split()[0] in ("pfrow", "pfx", "thr", "semc", "cond", "condt") for l in case)
 
